@@ -17,3 +17,5 @@ from contracts import interface as IF
 UNITS += [IF.unit_add_data_format_row().also("C11")]
 from props import _groups as _G
 UNITS = _G.with_groups(PROPERTY, UNITS, _G.CID)
+from contracts import fieldtypes as FT
+UNITS += [FT.unit_decimal_separators(), FT.unit_decimal_validated_value().also("C11")]
